@@ -119,18 +119,18 @@ func u8(c *ctx, p []byte) {
 var reasonSamples = [][]byte{
 	nil,
 	[]byte("bye"),
-	[]byte("\xc3\xa9"),             // 2-byte
-	[]byte("\xe2\x82\xac"),         // 3-byte
-	[]byte("\xf0\x9f\x98\x80"),     // 4-byte
-	[]byte("\xc0\xaf"),             // overlong
-	[]byte("\xed\xa0\x80"),         // surrogate
-	[]byte("\xe2\x82"),             // truncated
-	[]byte("\xf4\x90\x80\x80"),     // > U+10FFFF
-	[]byte("ok\xffno"),             // stray byte
-	[]byte("\xf0\x90\x80\x80"),     // U+10000 smallest 4-byte
-	[]byte("\xf4\x8f\xbf\xbf"),     // U+10FFFF
-	[]byte("\xe0\x9f\xbf"),         // overlong 3
-	[]byte("\xef\xbf\xbf"),         // U+FFFF
+	[]byte("\xc3\xa9"),         // 2-byte
+	[]byte("\xe2\x82\xac"),     // 3-byte
+	[]byte("\xf0\x9f\x98\x80"), // 4-byte
+	[]byte("\xc0\xaf"),         // overlong
+	[]byte("\xed\xa0\x80"),     // surrogate
+	[]byte("\xe2\x82"),         // truncated
+	[]byte("\xf4\x90\x80\x80"), // > U+10FFFF
+	[]byte("ok\xffno"),         // stray byte
+	[]byte("\xf0\x90\x80\x80"), // U+10000 smallest 4-byte
+	[]byte("\xf4\x8f\xbf\xbf"), // U+10FFFF
+	[]byte("\xe0\x9f\xbf"),     // overlong 3
+	[]byte("\xef\xbf\xbf"),     // U+FFFF
 }
 
 func runC03(c *ctx) {
@@ -165,6 +165,34 @@ func runC03(c *ctx) {
 				r = reasonSamples[i]
 			}
 			c03C(c, uint16(code), r)
+		}
+	}
+	// close reasons made of edge code points (U+FFFD itself is a valid character), and the same
+	// with one byte damaged, under acceptable and unacceptable codes
+	edgeRunes := []rune{0x24, 0x7f, 0x80, 0x7ff, 0x800, 0xd7ff, 0xe000, 0xfffd, 0xfffe, 0xffff, 0x10000, 0x10ffff, 0xfeff, 0x2028}
+	nedge := 300
+	if c.thor {
+		nedge = 6000
+	}
+	for i := 0; i < nedge; i++ {
+		var r []byte
+		k := 1 + c.rng.Intn(6)
+		if i < len(edgeRunes) {
+			r = []byte(string(edgeRunes[i]))
+		} else {
+			for j := 0; j < k; j++ {
+				r = append(r, []byte(string(edgeRunes[c.rng.Intn(len(edgeRunes))]))...)
+			}
+		}
+		code := []uint16{1000, 1001, 1003, 1007, 1011, 3000, 4999, 1005, 999, 2999}[c.rng.Intn(10)]
+		if i < 2*len(edgeRunes) {
+			code = 1000
+		}
+		c03C(c, code, r)
+		if i%3 == 0 && len(r) > 0 {
+			d := append([]byte(nil), r...)
+			d[c.rng.Intn(len(d))] ^= byte(1 << uint(c.rng.Intn(8)))
+			c03C(c, code, d)
 		}
 	}
 	// bodies: reason lengths 0..130 incl. multibyte straddling the crop
